@@ -6,7 +6,7 @@ CONSTANTS
   SigBug = "none"
   NB = 1
 VIEW SView
-INVARIANTS TypeOK LawUnregisterOnce LawOwnership LawCalledAreLive LawCallExplained
+INVARIANTS TypeOK LawUnregisterOnce LawOwnership LawCalledAreLive LawCallExplained LawDyingView
 CONSTRAINT SEmit
 ACTION_CONSTRAINT InScopeStep
 CHECK_DEADLOCK FALSE
